@@ -163,12 +163,24 @@ fn between2_f64(d: &mut Draw) -> Outcome {
 
 fn from_arc_f64(d: &mut Draw) -> Outcome {
     let (a, b, cls) = pair3(d);
+    let cosab = dotn(&a, &b);
+    let unit_dot = cls == "generic" && cosab > 0.05 && d.chance(1, 3);
+    let far = !unit_dot && cls == "generic" && cosab.abs() < 0.995 && d.chance(1, 3);
     let (l1, l2) = if cls == "opposite" || cls == "equal" {
         // powers of two keep exact (anti)parallelism exact
         ((2.0f64).powi(d.int(-9, 9) as i32), (2.0f64).powi(d.int(-9, 9) as i32))
+    } else if unit_dot {
+        // lengths chosen so that src . dst = 1 although the vectors are neither unit nor parallel
+        let l1 = d.f64_log(1e-2, 1e2);
+        (l1, 1.0 / (l1 * cosab))
+    } else if far {
+        // far outside the band of the near-parallel allowance, but with |src|^2 |dst|^2 and the
+        // separation mag (1 -+ cos) well inside what f64 resolves
+        (d.f64_log(1e-6, 1e70), d.f64_log(1e-6, 1e70))
     } else {
         (d.f64_log(1e-3, 1e3), d.f64_log(1e-3, 1e3))
     };
+    let cls = if unit_dot { "dot-is-one" } else if far { "generic-far-lengths" } else { cls };
     let with_fb = d.bool();
     let fb = perp_unit(&a, d);
     let src = Vector3::from(scale3(&a, l1));
@@ -251,7 +263,10 @@ fn exact3(d: &mut Draw) -> Outcome {
     ensure_eq!(Matrix3::from(bs), Matrix3::from(q), "basis3-vs-quaternion", "Basis3::between_vectors vs matrix of the quaternion");
 
     // from_arc on scaled copies
-    let (l1, l2) = (Q::ratio(d.int(1, 12), d.int(1, 6)), Q::ratio(d.int(1, 12), d.int(1, 6)));
+    let l1 = Q::ratio(d.int(1, 12), d.int(1, 6));
+    let ab = dotn(&a, &b);
+    // now and then lengths with src . dst = 1 exactly (neither unit nor parallel)
+    let l2 = if ab > Q::ZERO && ab != Q::ONE && d.chance(1, 3) { Q::ONE / (l1 * ab) } else { Q::ratio(d.int(1, 12), d.int(1, 6)) };
     let (src, dst) = (va * l1, vb * l2);
     // fallback: a rational unit vector perpendicular to a (only used for opposite vectors)
     let fb = {
@@ -295,7 +310,7 @@ pub fn property() -> Property {
     add!("between_vectors_2d-f64", "f64", between2_f64, 10000, 1_000_000, 16,
         &[("clockwise", 150), ("counter-clockwise", 100), ("near-parallel", 40), ("near-antiparallel", 40), ("equal", 40), ("opposite", 40)], "every generated pair; clockwise pairs required");
     add!("from_arc-f64", "f64", from_arc_f64, 12000, 1_000_000, 48,
-        &[("generic", 200), ("near-parallel", 100), ("near-antiparallel", 100), ("equal", 40), ("opposite-fallback", 15), ("opposite-no-fallback", 15)], "every generated pair; fallback given / not given both required");
+        &[("generic", 100), ("dot-is-one", 30), ("generic-far-lengths", 30), ("near-parallel", 100), ("near-antiparallel", 100), ("equal", 40), ("opposite-fallback", 15), ("opposite-no-fallback", 15)], "every generated pair; fallback given / not given both required");
     add!("between_vectors_from_arc-Q", "Q", exact3, 8000, 500_000, 48, &[("generic", 200), ("equal", 50), ("opposite", 100)], "a has three distinct non-zero components");
     Property {
         id: "C15",
@@ -303,7 +318,7 @@ pub fn property() -> Property {
         subchecks: s,
         assumptions: &[
             "between_vectors inputs are unit (normalised in f64, exactly unit rationals in Q); non-unit inputs are outside the statement",
-            "f64: 'exact' is read as 1e-9; directions within 1e-7 rad (1e-4 rad for from_arc, lengths 1e-3..1e3) of (anti)parallel get the stated allowance; thresholds are f64-calibrated",
+            "f64: 'exact' is read as 1e-9; directions within 1e-7 rad (1e-4 rad for from_arc, lengths 1e-3..1e3; generic directions at least 0.1 rad from (anti)parallel are also drawn with lengths 1e-6..1e70, where |src|^2 |dst|^2 is still finite and the separation from the parallel tests is 20x the absolute epsilon) of (anti)parallel get the stated allowance; thresholds are f64-calibrated",
             "Q: b = 2(a.m)m - a makes every internal normalisation rational; the 2-D variant needs inverse trigonometry and is decided in f64 only",
             "exactly opposite inputs for from_arc use power-of-two lengths so that antiparallelism survives scaling",
         ],
